@@ -108,6 +108,27 @@ NOTES = {
  'C18e': ('detected', ''),
  'C19e': ('missed (and the gateway part of the check turned out to stop after ~11% of its cases: virtual-clock cap inside one long run, not reported)', 'templates with fragments on the union\'s own name (inline, spread twice) through the gateway; the clock/step caps of the long enumerating runs were raised and a cap is now reported'),
  'C20e': ('missed', 'a limiter of size 0: a live-context Acquire never gets through, cancelled ones return without a token'),
+ # sixth round: five earlier sites given
+ 'C01f': ('detected', ''),
+ 'C02f': ('missed', 'a mutation that re-uses the id of a live subscription, then the unsubscribe (the C17 check had this script, the C02 check did not)'),
+ 'C03f': ('detected', ''),
+ 'C04f': ('detected', ''),
+ 'C05f': ('detected', ''),
+ 'C06f': ('detected', ''),
+ 'C07f': ('missed', 'a database column order that differs from the struct\'s in the live path (information_schema reports it, change events follow it), with scan-compatible columns changing places'),
+ 'C08f': ('detected', ''),
+ 'C09f': ('detected', ''),
+ 'C10f': ('missed', 'read isolation in the in-memory driver and a query inside a transaction holding an uncommitted row next to a query outside it'),
+ 'C11f': ('missed', 'string-keyed lists in which one key is the empty string (its cursor is the empty string)'),
+ 'C12f': ('detected', ''),
+ 'C13f': ('missed', 'a type that serialises itself (driver.Valuer + sql.Scanner) under a json / string / binary tag'),
+ 'C14f': ('missed', 'union fields with fragments for only one member or none (the other members still answer the union\'s own __typename)'),
+ 'C15f': ('missed', 'a subscription cancelled while its cancellation-observing resolver is executing (unsubscribe, socket close, context cancel) in the C15 scripts'),
+ 'C16f': ('missed', 'an application error type implementing SanitizedError whose log text and client text differ'),
+ 'C17f': ('missed', 'the socket closes while a cancellation-observing run is in flight'),
+ 'C18f': ('missed', 'the argument sits in a named fragment: variable, default used (absent / null)'),
+ 'C19f': ('missed', 'a spread with a directive inside another fragment\'s definition under a union parent (both name orders) and through the gateway'),
+ 'C20f': ('missed', 'nested temporary release after which the outer function takes and returns a token of its own'),
 }
 rows = []
 for name in sorted(os.listdir(ROOT)):
